@@ -290,6 +290,16 @@ func (x *xtr) block(stmts []ast.Stmt, k func() string) string {
 		x.bad(s, "%s is not allowed here", t.Tok)
 	case *ast.DeclStmt:
 		gd, ok := t.Decl.(*ast.GenDecl)
+		if ok && gd.Tok == token.TYPE {
+			// a local type declaration: it must be one of the spec's structs (structSpec.InFunc), already generated
+			for _, sp := range gd.Specs {
+				ts := sp.(*ast.TypeSpec)
+				if _, known := x.structs[ts.Name.Name]; !known {
+					x.bad(s, "local type %s is not named in spec.Structs (InFunc)", ts.Name.Name)
+				}
+			}
+			return rest()
+		}
 		if !ok || gd.Tok != token.VAR {
 			x.bad(s, "declaration")
 		}
